@@ -42,13 +42,14 @@ class FakeSelect:
     self.n += 1
     r = list(r); w = list(w); x = list(x)
     pingers = [f for f in r if isinstance(f, Pinger)]
-    if any(p.flag for p in pingers):
-      return [p for p in pingers if p.flag], [], []
+    flagged = [p for p in pingers if p.flag]
     fds = [f for f in r if not isinstance(f, Pinger)]
     ready = []
     if self.n <= self.budget:
       for f in fds:
         if ctx.bool('ready_%s_%d' % (f, self.n)): ready.append(f)
+    if flagged:
+      return ready + flagged, [], []          # a pending wake-up byte makes select return at once, together with whatever else is ready
     if ready:
       hi = timeout if timeout is not None else 1000
       dt = ctx.int('dt%d' % self.n, 0, 100000)
@@ -96,7 +97,7 @@ def drive(s, steps, fs=None):
   return False
 
 
-KINDS = ['zero', 'sleep', 'select_t', 'select_none', 'block', 'raise']
+KINDS = ['zero', 'sleep', 'select_t', 'select_none', 'block', 'raise', 'busy']
 
 
 def h_tasks(ctx, prog):
@@ -119,6 +120,9 @@ def h_tasks(ctx, prog):
         elif k == 'select_t':
           t = ctx.int('t_%d_%d' % (ti, si), 1, 5000); reqs[(ti, si)] = ('select', clock.now, t); got = yield R.Select(['fd%d' % ti], None, None, t)
         elif k == 'select_none': reqs[(ti, si)] = ('select', clock.now, None); got = yield R.Select(['fd%d' % ti], None, None)
+        elif k == 'busy':
+          # a long time slice: the clock moves on while this task runs (other tasks' deadlines may pass before the hub is consulted)
+          clock.now = clock.now + ctx.int('busy_%d_%d' % (ti, si), 0, 8000); reqs[(ti, si)] = ('zero', clock.now, 0); got = yield 0
         elif k == 'block': reqs[(ti, si)] = ('block', clock.now, None); got = yield False
         elif k == 'raise': reqs[(ti, si)] = ('raise', clock.now, None); raise RuntimeError("task failure")
       active[0] += 1
@@ -201,11 +205,11 @@ def obligations(tier):
   thorough = tier != 'quick'
   progs = []
   singles = [('zero', 'sleep', 'zero'), ('sleep', 'select_t'), ('select_t', 'sleep', 'zero'), ('select_none', 'zero'), ('zero', 'block'), ('sleep', 'raise', 'zero'),
-             ('select_t', 'select_t'), ('sleep', 'sleep', 'sleep')]
+             ('select_t', 'select_t'), ('sleep', 'sleep', 'sleep'), ('busy', 'zero'), ('zero', 'busy', 'busy')]
   for a in singles: progs.append((a,))
   pairs = [(0, 1), (1, 2), (2, 5), (3, 0), (4, 1), (5, 2), (6, 0), (7, 6), (1, 1), (2, 2)]
-  pairs += [(a, b) for a in range(8) for b in range(8) if (a, b) not in pairs and a <= b]
-  if thorough: pairs += [(a, b) for a in range(8) for b in range(8) if a > b]
+  pairs += [(a, b) for a in range(10) for b in range(10) if (a, b) not in pairs and a <= b]
+  if thorough: pairs += [(a, b) for a in range(10) for b in range(10) if a > b]
   for a, b in pairs: progs.append((singles[a], singles[b]))
   timers = [dict(recurring=False, cancel_after='never'), dict(recurring=False, cancel_after='cancel_before'), dict(recurring=True, cancel_after='never'),
             dict(recurring=True, cancel_after='return_false'), dict(recurring=True, cancel_after='cancel_at_3')]
